@@ -49,3 +49,13 @@ package encoder
 //@   ensures e == nil ==> blockID < numRSBlocks && ec == numTotalBytes / numRSBlocks - numDataBytes / numRSBlocks && d == numDataBytes / numRSBlocks + (blockID < numRSBlocks - numTotalBytes % numRSBlocks ? 0 : 1)
 //@   ensures e == nil ==> numTotalBytes == (numDataBytes / numRSBlocks + ec) * (numRSBlocks - numTotalBytes % numRSBlocks) + (numDataBytes / numRSBlocks + 1 + ec) * (numTotalBytes % numRSBlocks)
 //@   modifies nothing
+
+// the encoder's own copy of the alignment pattern centres equals the decoder's per-version table (padded with -1)
+//@ lemma positionAdjustment(v int, k int)
+//@   property C07
+//@   globals matrixUtil_POSITION_ADJUSTMENT_PATTERN_COORDINATE_TABLE, decoder.VERSIONS
+//@   proof cases v 1 40, k 0 6
+//@   let row = matrixUtil_POSITION_ADJUSTMENT_PATTERN_COORDINATE_TABLE[v-1]
+//@   let c = decoder.VERSIONS[v-1].alignmentPatternCenters
+//@   ensures len(matrixUtil_POSITION_ADJUSTMENT_PATTERN_COORDINATE_TABLE) == 40 && len(row) == 7 && len(c) <= 7
+//@   ensures row[k] == (k < len(c) ? c[k] : -1)
